@@ -10,14 +10,14 @@
 EXTENDS Expand
 
 \* --- notation -----------------------------------------------------------
-L(s) == [i \in 1..Len(s) |-> [t |-> "lit", c |-> SubSeq(s, i, i)]]
-B(c) == <<[t |-> "bs", c |-> c]>>
-SQ(s) == <<[t |-> "sq", s |-> s]>>
-DQ(us) == <<[t |-> "dq", u |-> us]>>
-P(p) == <<[t |-> "par", p |-> p, m |-> "none"]>>
-PL(p) == <<[t |-> "par", p |-> p, m |-> "len"]>>
-SW(p, colon, act, w) == <<[t |-> "par", p |-> p, m |-> "sw", colon |-> colon, act |-> act, w |-> w]>>
-TR(p, side, long, w) == <<[t |-> "par", p |-> p, m |-> "trim", side |-> side, long |-> long, w |-> w]>>
+L(s) == WLit(s)
+B(c) == WBs(c)
+SQ(s) == WSq(s)
+DQ(us) == WDq(us)
+P(p) == WPar(p)
+PL(p) == WLen(p)
+SW(p, colon, act, w) == WSw(p, colon, act, w)
+TR(p, side, long, w) == WTrim(p, side, long, w)
 
 DefaultIfs == [set |-> TRUE, v |-> " \t\n"]
 NoIfs == [set |-> FALSE, v |-> ""]
